@@ -152,6 +152,13 @@ func (r *vC08Rec) classify(m lnwire.Message) (string, int, uint64, uint64, strin
 func (v *vC08Net) wire(node string, srv *mockServer, rg *vrng) messageInterceptor {
 	return func(m lnwire.Message) (bool, error) {
 		r := v.rec
+		var (
+			ep     uint64
+			tagged bool
+		)
+		if env, ok := m.(*vC08Env); ok {
+			m, ep, tagged = env.Message, env.epoch, true
+		}
 		kind, ch, id, amt, hx := r.classify(m)
 		if kind == "" {
 			return false, nil
@@ -176,8 +183,6 @@ func (v *vC08Net) wire(node string, srv *mockServer, rg *vrng) messageIntercepto
 		defer v.gate.RUnlock()
 
 		v.mu.Lock()
-		ep, tagged := v.tags[m]
-		delete(v.tags, m)
 		why := ""
 		switch {
 		case !tagged || ep != v.epoch[ch]:
@@ -245,12 +250,23 @@ type vC08Peer struct {
 	bob   bool
 }
 
+// vC08Env carries a message together with the connection epoch of the link
+// that sent it.  (The tag must belong to the SEND, not to the message object:
+// a link re-sends the very same *lnwire.UpdateAddHTLC of a mailbox packet
+// after a reconnect while the copy of the old connection may still be queued.)
+type vC08Env struct {
+	lnwire.Message
+	epoch uint64
+}
+
 func (p *vC08Peer) SendMessage(sync bool, msgs ...lnwire.Message) error {
-	p.v.mu.Lock()
-	for _, m := range msgs {
-		p.v.tags[m] = p.epoch
+	out := make([]lnwire.Message, len(msgs))
+	for i, m := range msgs {
+		out[i] = m
+		if kind, _, _, _, _ := p.v.rec.classify(m); kind != "" {
+			out[i] = &vC08Env{Message: m, epoch: p.epoch}
+		}
 	}
-	p.v.mu.Unlock()
 	if p.bob {
 		if p.v.bobDead.Load() {
 			// database stop point reached: the process is dead, nothing
@@ -265,7 +281,7 @@ func (p *vC08Peer) SendMessage(sync bool, msgs ...lnwire.Message) error {
 			}
 		}
 	}
-	return p.Peer.SendMessage(sync, msgs...)
+	return p.Peer.SendMessage(sync, out...)
 }
 
 // ---- HtlcNotifier at Bob ------------------------------------------------------
@@ -514,7 +530,6 @@ type vC08Net struct {
 	gate sync.RWMutex
 
 	mu       sync.Mutex
-	tags     map[lnwire.Message]uint64
 	epoch    [3]uint64
 	dropping [3]bool
 	armed    *vC08Fault
@@ -684,7 +699,6 @@ func vC08NewNet(v *vC08Net, t *testing.T, rec *vC08Rec, rg *vrng, ch *clusterCha
 	restore func(one, two bool) (*clusterChannels, error), opt serverOption) *vC08Net {
 
 	v.t, v.rec, v.rg, v.restore, v.opt = t, rec, rg, restore, opt
-	v.tags = map[lnwire.Message]uint64{}
 	rec.v = v
 	v.n = &threeHopNetwork{hopNetwork: *newHopNetwork()}
 	n := v.n
@@ -1101,7 +1115,9 @@ func vC08Quiet(n *threeHopNetwork, r *vC08Rec) (bool, string) {
 		}
 		time.Sleep(40 * time.Millisecond)
 	}
-	return false, why
+	// how long nothing at all has happened (a long silence with HTLCs still
+	// active is "dangling", recent activity is merely "slow")
+	return false, fmt.Sprintf("%s silent_ms=%d", why, time.Since(since).Milliseconds())
 }
 
 // vC08Plan chooses the faults of a batch.  mode cycles through all fault
